@@ -36,6 +36,15 @@ CFGS = [
 ]
 
 
+CFGS_THOROUGH = CFGS + [
+    dict(name='time-controls-3-pauses', H=H, dur=4 * H, pauses=[H, 2 * H, 3 * H], pickle=True, controls=[dict(kind='status', target='P2', value=0), dict(kind='status', target='P2', value=1)]),
+    dict(name='rule-very-fine-grid', H=H, R=900, dur=3 * H, pauses=[H, 2 * H], pickle=False, controls=[dict(kind='rule', target='VT', rel='ge', then=0)]),
+    dict(name='leak-window-4h', H=H, dur=4 * H, pauses=[H, 3 * H], pickle=False, controls=[dict(kind='leak', target='J2')]),
+    dict(name='level-control-pickled', H=H, dur=3 * H, pauses=[H], pickle=True, controls=[dict(kind='level', target='P2', rel='lt', value=1)]),
+    dict(name='setting+clock-2-pauses', H=H, dur=3 * H, pauses=[H, 2 * H], pickle=False, clock=True, controls=[dict(kind='setting', target='VT', value='sym'), dict(kind='status', target='P2', value=0, clock=True)]),
+]
+
+
 def run_paused(plane, wn, cfg, do_pickle):
     parts = []
     for T1 in cfg['pauses'] + [cfg['dur']]:
@@ -165,7 +174,7 @@ def run(rep, only=None):
     for s in ctrlplane.STUBS:
         rep.stub(s)
     rep.stub('Sym.__reduce__: proxies survive pickle through a side table (what pickle does to real floats is covered by the replay only)')
-    rep.bound('one 5-node scenario; T <= 3 hydraulic steps; pause at H and/or 2H (one or two pauses); with and without a pickle round trip; rules with R < H; clock-time control with symbolic start_clocktime; '
+    rep.bound('one 5-node scenario; T <= 3 (thorough 4) hydraulic steps; pause at H and/or 2H (thorough: up to three pauses); with and without a pickle round trip; rules with R < H; clock-time control with symbolic start_clocktime; '
               'leak window straddling the pause; tank-level threshold symbolic')
-    tasks = [('cfg-' + cfg['name'], check_cfg, (cfg,)) for cfg in CFGS]
+    tasks = [('cfg-' + cfg['name'], check_cfg, (cfg,)) for cfg in (CFGS_THOROUGH if rep.tier == 'thorough' else CFGS)]
     run_parallel(rep, tasks)
